@@ -425,6 +425,25 @@ Definition f14_class (P : program) (q : query) : bool :=
                           end) (cbody c)
     end) cls.
 
+(** Known class F1 (DESIGN §5; [MayInvalidate] ignores repeated guidance variables): the
+    goal has an unknown and reaches a predicate one of whose clause heads repeats a variable. *)
+Fixpoint has_dup (l : list nat) : bool :=
+  match l with
+  | [] => false
+  | i :: r => existsb (Nat.eqb i) r || has_dup r
+  end.
+
+Definition f1_class (P : program) (q : query) : bool :=
+  let cls := query_clauses P q in
+  let start := syms_of (goal_atoms (q_body q)) in
+  let R0 := reachS (graph_fuel cls (length start)) cls start [] in
+  negb (Nat.eqb (length (q_ubs q)) 0) &&
+  existsb (fun c =>
+    match hsym (chead c) with
+    | None => false
+    | Some h => memN h R0 && has_dup (vars (chead c))
+    end) cls.
+
 (** ** Witnesses (computation) *)
 
 Module ContractExamples.
@@ -462,8 +481,9 @@ Module ContractExamples.
   Example rr1 : rr (allc P1 []).
   Proof. apply rr_allb_spec. reflexivity. Qed.
 
-  Theorem f1_refuted : ~ contract P1 [] q1 slg1.
+  Theorem f1_refuted : f1_class P1 q1 = true /\ ~ contract P1 [] q1 slg1.
   Proof.
+    split; [reflexivity|].
     apply (check_answer_alarm_sound 50 P1 [] q1 slg1 [[Vec I32; U32]] 2 rr1). reflexivity.
   Qed.
 
